@@ -317,9 +317,9 @@ pub fn run(tier: &str, seed: u64) -> i32 {
     let mut rep = Report::new("C10", tier, seed, "exploration");
     rep.rule = "distributed preprocessing through the wrappers (coin tosses, fashare, beaver_aand as gen_auth_bits calls them) for n=2..5 and batch lengths {1,2,7,63,64,65,127,128,129} (n<=3), {1000,3099,3100(,5000)} (n=2: bucket sizes 5 and 4), left/right shares = public random linear combinations of fresh shares incl. all-zero and equal left/right; trusted dealer: a harness client speaks the dealer protocol directly (n=2..5) and mpc with the dealer is compared with the clear-text evaluator. Oracle: for every share and ordered pair (i,j) MAC_i[j] == key_j[i] ^ (bit_i & delta_j); XOR z == (XOR a) & (XOR b); multi-party coins equal at all parties, pairwise coins equal within and different across pairs. distinct = (provider, n, batch length class); every case is non-trivial".into();
     rep.assumptions = vec!["bucket size 3 (>= 280000 triples per batch) is exercised only in the thorough tier for n=2 when PV_C10_HUGE=1 (memory / time)".into()];
-    let n_dist = if thorough { 640 } else { 128 };
-    let n_dd = if thorough { 480 } else { 96 };
-    let n_dm = if thorough { 360 } else { 60 };
+    let n_dist = if thorough { 960 } else { 320 };
+    let n_dd = if thorough { 640 } else { 192 };
+    let n_dm = if thorough { 480 } else { 120 };
     let huge = thorough && std::env::var("PV_C10_HUGE").is_ok();
     let total = n_dist + n_dd + n_dm;
     let outs = parallel_for(total, threads(), |i| {
